@@ -41,8 +41,22 @@ pub enum RoOp {
 
 #[derive(Clone, Debug, Serialize, Deserialize)]
 pub enum Kind {
-    Refuse { m: Mutation, mode: u8, capsel: u8, create: bool },
-    ReadOnly { mode: u8, capsel: u8, ops: Vec<RoOp> },
+    Refuse {
+        m: Mutation,
+        mode: u8,
+        capsel: u8,
+        create: bool,
+        /// read-only variants only: file-open flags left set on the Options (see enga::ro_flags)
+        #[serde(default)]
+        flags: u8,
+    },
+    ReadOnly {
+        mode: u8,
+        capsel: u8,
+        ops: Vec<RoOp>,
+        #[serde(default)]
+        flags: u8,
+    },
 }
 
 #[derive(Clone, Debug, Serialize, Deserialize)]
@@ -106,7 +120,7 @@ fn build<A: Flavor>(case: &CaseC09, classes: &mut BTreeSet<&'static str>) -> Res
     Ok(Some(Built { path, bytes, capacity, allocated }))
 }
 
-fn run_refuse<A: Flavor>(case: &CaseC09, m: &Mutation, mode: u8, capsel: u8, create: bool) -> (BTreeSet<&'static str>, Option<Viol>) {
+fn run_refuse<A: Flavor>(case: &CaseC09, m: &Mutation, mode: u8, capsel: u8, create: bool, flags: u8) -> (BTreeSet<&'static str>, Option<Viol>) {
     let mut classes = BTreeSet::new();
     let b = match build::<A>(case, &mut classes) {
         Ok(Some(b)) => b,
@@ -192,16 +206,18 @@ fn run_refuse<A: Flavor>(case: &CaseC09, m: &Mutation, mode: u8, capsel: u8, cre
         _ => o,
     };
     let o = if create && writable { o.with_create(true) } else { o };
-    let what = ["map_mut", "map_copy", "map", "map_copy_read_only"][mode as usize & 3];
+    let o = if writable { o } else { crate::enga::ro_flags(o, flags) };
+    if !writable && flags & 31 != 0 {
+        classes.insert("ro-open-with-write-flags");
+    }
+    // bit 2 of the generated mode selects the *_with_path_builder form of the same open
+    let pb = mode & 4 != 0;
+    if pb {
+        classes.insert("via-path-builder");
+    }
+    let what = crate::enga::OPEN_NAMES[(mode as usize & 3) + 4 * usize::from(pb)];
     let path = b.path.clone();
-    let r = guard(what, "C09", || unsafe {
-        match mode & 3 {
-            0 => o.with_write(true).map_mut::<A, _>(&path),
-            1 => o.with_write(true).map_copy::<A, _>(&path),
-            2 => o.map::<A, _>(&path),
-            _ => o.map_copy_read_only::<A, _>(&path),
-        }
-    });
+    let r = guard(what, "C09", || crate::enga::open_variant::<A>(o, mode & 3, pb, &path));
     let viol = (|| -> Result<(), Viol> {
         let r = r?;
         let failed = r.is_err();
@@ -228,7 +244,7 @@ fn run_refuse<A: Flavor>(case: &CaseC09, m: &Mutation, mode: u8, capsel: u8, cre
     (classes, viol)
 }
 
-fn run_readonly<A: Flavor>(case: &CaseC09, mode: u8, capsel: u8, ops: &[RoOp]) -> (BTreeSet<&'static str>, Option<Viol>) {
+fn run_readonly<A: Flavor>(case: &CaseC09, mode: u8, capsel: u8, ops: &[RoOp], flags: u8) -> (BTreeSet<&'static str>, Option<Viol>) {
     let mut classes = BTreeSet::new();
     let b = match build::<A>(case, &mut classes) {
         Ok(Some(b)) => b,
@@ -244,16 +260,19 @@ fn run_readonly<A: Flavor>(case: &CaseC09, mode: u8, capsel: u8, ops: &[RoOp]) -
         1 => o.with_capacity((b.capacity + 77) as u32),
         _ => o,
     };
+    let o = crate::enga::ro_flags(o, flags);
+    if flags & 31 != 0 {
+        classes.insert("ro-open-with-write-flags");
+    }
     let path = b.path.clone();
-    let what = if mode & 1 == 0 { "map" } else { "map_copy_read_only" };
+    // bit 1 of the generated mode selects the *_with_path_builder form
+    let pb = mode & 2 != 0;
+    if pb {
+        classes.insert("via-path-builder");
+    }
+    let what = crate::enga::OPEN_NAMES[2 + (mode as usize & 1) + 4 * usize::from(pb)];
     let viol = (|| -> Result<(), Viol> {
-        let r = guard(what, "C05", || unsafe {
-            if mode & 1 == 0 {
-                o.map::<A, _>(&path)
-            } else {
-                o.map_copy_read_only::<A, _>(&path)
-            }
-        })?;
+        let r = guard(what, "C05", || crate::enga::open_variant::<A>(o, 2 + (mode & 1), pb, &path))?;
         let mut arena = match r {
             Ok(a) => a,
             Err(e) => return Err(viol!("C05", "reopen-failed", "{what} of a valid file failed: {e}")),
@@ -379,10 +398,10 @@ fn run_readonly<A: Flavor>(case: &CaseC09, mode: u8, capsel: u8, ops: &[RoOp]) -
 
 fn c09_run_inner(case: &CaseC09) -> CaseReport {
         let (classes, viol) = match (&case.kind, case.cfg.flavor) {
-            (Kind::Refuse { m, mode, capsel, create }, Fl::Sync) => run_refuse::<sync::Arena>(case, m, *mode, *capsel, *create),
-            (Kind::Refuse { m, mode, capsel, create }, Fl::Unsync) => run_refuse::<unsync::Arena>(case, m, *mode, *capsel, *create),
-            (Kind::ReadOnly { mode, capsel, ops }, Fl::Sync) => run_readonly::<sync::Arena>(case, *mode, *capsel, ops),
-            (Kind::ReadOnly { mode, capsel, ops }, Fl::Unsync) => run_readonly::<unsync::Arena>(case, *mode, *capsel, ops),
+            (Kind::Refuse { m, mode, capsel, create, flags }, Fl::Sync) => run_refuse::<sync::Arena>(case, m, *mode, *capsel, *create, *flags),
+            (Kind::Refuse { m, mode, capsel, create, flags }, Fl::Unsync) => run_refuse::<unsync::Arena>(case, m, *mode, *capsel, *create, *flags),
+            (Kind::ReadOnly { mode, capsel, ops, flags }, Fl::Sync) => run_readonly::<sync::Arena>(case, *mode, *capsel, ops, *flags),
+            (Kind::ReadOnly { mode, capsel, ops, flags }, Fl::Unsync) => run_readonly::<unsync::Arena>(case, *mode, *capsel, ops, *flags),
         };
         let nontrivial = (classes.contains("open-refused") && classes.contains("stale-bytes-above-cursor")) || classes.contains("ro-3-mutators");
         CaseReport { nontrivial, classes, viol }
@@ -421,8 +440,8 @@ impl Prop for C09 {
             2 => any::<u16>().prop_map(|off| RoOp::Reader { off }),
         ];
         let kind = prop_oneof![
-            3 => (mutation, 0u8..4, 0u8..3, any::<bool>()).prop_map(|(m, mode, capsel, create)| Kind::Refuse { m, mode, capsel, create }),
-            2 => (0u8..2, 0u8..3, prop::collection::vec(roop, 1..=8)).prop_map(|(mode, capsel, ops)| Kind::ReadOnly { mode, capsel, ops }),
+            3 => (mutation, 0u8..8, 0u8..3, any::<bool>(), prop_oneof![2 => Just(0u8), 1 => 0u8..32]).prop_map(|(m, mode, capsel, create, flags)| Kind::Refuse { m, mode, capsel, create, flags }),
+            2 => (0u8..4, 0u8..3, prop::collection::vec(roop, 1..=8), prop_oneof![2 => Just(0u8), 1 => 0u8..32]).prop_map(|(mode, capsel, ops, flags)| Kind::ReadOnly { mode, capsel, ops, flags }),
         ];
         (case_strategy(&p), prop_oneof![1 => Just(0u8), 4 => 1u8..=120], kind).prop_map(|(c, stale, kind)| CaseC09 { cfg: c.cfg, pre: c.ops, stale, kind }).boxed()
     }
@@ -436,21 +455,21 @@ impl Prop for C09 {
         scale(tier, 160_000, 4_000_000)
     }
     fn rule() -> &'static str {
-        "a valid arena file produced by a short Engine-A history (with stale non-zero bytes left above the cursor by an on-top release), then either (A) one mutation - any of the eight identification bytes to any value, truncation to any length, replacement by arbitrary bytes, or a different expected freelist kind / magic version - opened through map_mut / map_copy / map / map_copy_read_only with capacity same / larger / absent and with or without create: the open must fail whenever the decoded fields (magic text, magic version, format version, freelist byte, expected freelist for writable opens, header-prefix size) say so, and after every failed open the first old_len bytes of the file are identical; or (B) a read-only open (map / map_copy_read_only) followed by 1..8 calls over the safe mutating surface (all alloc flavours incl. zero-size, discard_freelist, set_minimum_segment_size, increase_discarded, clear, flush*, truncate, readers): each returns ReadOnly / PermissionDenied, panics with a read-only message, or returns with state and memory unchanged; no signal; file identical afterwards. Non-trivial = a refused open on a file with stale bytes above the cursor, or a read-only session with >= 3 distinct mutators"
+        "a valid arena file produced by a short Engine-A history (with stale non-zero bytes left above the cursor by an on-top release), then either (A) one mutation - any of the eight identification bytes to any value, truncation to any length, replacement by arbitrary bytes, or a different expected freelist kind / magic version - opened through map_mut / map_copy / map / map_copy_read_only or their *_with_path_builder forms with capacity same / larger / absent and with or without create: the open must fail whenever the decoded fields (magic text, magic version, format version, freelist byte, expected freelist for writable opens, header-prefix size) say so, and after every failed open the first old_len bytes of the file are identical; or (B) a read-only open (map / map_copy_read_only) followed by 1..8 calls over the safe mutating surface (all alloc flavours incl. zero-size, discard_freelist, set_minimum_segment_size, increase_discarded, clear, flush*, truncate, readers): each returns ReadOnly / PermissionDenied, panics with a read-only message, or returns with state and memory unchanged; no signal; file identical afterwards. Non-trivial = a refused open on a file with stale bytes above the cursor, or a read-only session with >= 3 distinct mutators"
     }
     fn assumptions() -> Vec<&'static str> {
         vec![
-            "with_truncate(true), create_new on an existing path and remove_on_drop(true) are excluded: the caller asked for the change / the OS refuses first / the docs say the file is deleted",
+            "for WRITABLE opens with_truncate(true), create_new on an existing path and remove_on_drop(true) are excluded: the caller asked for the change / the OS refuses first / the docs say the file is deleted; for READ-ONLY opens the file-open flags truncate / append / create / create_new / write may be left set on the Options in any combination (the implementation clears them all) and the file must still be left alone",
             "growth of the file by a refused open that requested a larger capacity is reported (class refused-open-grew-file), not judged: the statement speaks of the bytes that were in the file",
         ]
     }
     fn simplify(c: &CaseC09) -> Vec<CaseC09> {
         let mut out: Vec<CaseC09> = simplify_case_a(&CaseA { cfg: c.cfg.clone(), ops: c.pre.clone() }).into_iter().map(|x| CaseC09 { cfg: c.cfg.clone(), pre: x.ops, stale: c.stale, kind: c.kind.clone() }).collect();
-        if let Kind::ReadOnly { mode, capsel, ops } = &c.kind {
+        if let Kind::ReadOnly { mode, capsel, ops, flags } = &c.kind {
             for i in 0..ops.len() {
                 let mut o = ops.clone();
                 o.remove(i);
-                out.push(CaseC09 { cfg: c.cfg.clone(), pre: c.pre.clone(), stale: c.stale, kind: Kind::ReadOnly { mode: *mode, capsel: *capsel, ops: o } });
+                out.push(CaseC09 { cfg: c.cfg.clone(), pre: c.pre.clone(), stale: c.stale, kind: Kind::ReadOnly { mode: *mode, capsel: *capsel, ops: o, flags: *flags } });
             }
         }
         out
